@@ -120,7 +120,7 @@ SPEC = dict(
         # the interposed source is a member of the operation: it must outlive its own request_stop().  FAILS on the unchanged tree
         # (inner operation completing with done from inside the forwarded stop request; probes/native/let_value_with_stop_source_request_stop_uaf.cpp)
         dict(name='fused_callback_source_outlives_request_stop', harness='h_fss_callback', enforce='fss_stop_callback_call',
-             replace=['ss_receiver_set_done', 'tk_receiver_set_done'], defines=['VF_PIN_CHECK'], tier='thorough'),
+             replace=['ss_receiver_set_done', 'tk_receiver_set_done'], defines=['VF_PIN_CHECK']),
         dict(name='lemma_order', harness='lemma_order', mode='lemma'),
         dict(name='lemma_tokens', harness='lemma_tokens', mode='lemma'),
     ],
